@@ -527,7 +527,13 @@ class PEval:
             m = {'str': str, 'int': int, 'list': list, 'tuple': tuple, 'dict': dict, 'set': set, 'bool': bool}
             if tn in m:
                 return isinstance(args[0], m[tn])
-        fn_t = ast.unparse(f) if not isinstance(f, ast.Attribute) else f"{show(self.ev(f.value, st))}.{nm}"
+        if isinstance(f, ast.Attribute):
+            fn_t = f"{show(self.ev(f.value, st))}.{nm}"
+        elif isinstance(f, ast.Name) and f.id not in st.env:
+            fn_t = f.id
+        else:
+            fv = self.ev(f, st)          # a callable held in a local / chosen by a conditional expression
+            fn_t = show(fv) if isinstance(fv, Unk) else ast.unparse(f)
         if nm in self.records and not args and not starred and kwargs:
             return Rec(f"{fn_t}({', '.join(f'{k}={show(v)}' for k, v in kwargs.items())})", dict(kwargs))
         return Unk(f"{fn_t}({', '.join([show(a) for a in args] + (['*...'] if starred else []) + [f'{k}={show(v)}' for k, v in kwargs.items()])})")
